@@ -80,6 +80,30 @@ Definition esc_fix (k : str) : str :=
 Definition plain (s : str) : bool :=
   negb (is_nil s) && negb (existsb (N.eqb 47) s) && negb (str_eqb s [46]) && negb (str_eqb s [46; 46]).
 
+(* ---- well-formed names: what every graph built through the public API satisfies ------ *)
+Fixpoint nodup_keys (l : list str) : bool :=
+  match l with [] => true | k :: l' => negb (existsb (str_eqb k) l') && nodup_keys l' end.
+
+(* the keys of every dict inside the value are pairwise distinct (a Python dict) *)
+Fixpoint dict_ok (v : value) : bool :=
+  match v with
+  | VList l => forallb dict_ok l
+  | VDict l => nodup_keys (map fst l) && forallb (fun kv => dict_ok (snd kv)) l
+  | _ => true
+  end.
+
+(* argument names are pairwise distinct and are not the reserved keys *)
+Definition node_names_ok (nd : node) : Prop :=
+  NoDup (map fst (fields nd)) /\ ~ In k_pre (map fst (fields nd)) /\ ~ In k_init (map fst (fields nd)) /\
+  (forall kv, In kv (fields nd) -> dict_ok (snd kv) = true).
+Definition names_wf (h : heap) : Prop := forall n nd, nth_error h n = Some nd -> node_names_ok nd.
+
+Definition node_names_okb (nd : node) : bool :=
+  nodup_keys (map fst (fields nd)) && negb (existsb (str_eqb k_pre) (map fst (fields nd)))
+  && negb (existsb (str_eqb k_init) (map fst (fields nd)))
+  && forallb (fun kv : str * value => dict_ok (snd kv)) (fields nd).
+Definition names_wfb (h : heap) : bool := forallb node_names_okb h.
+
 (* ---- the generated values -------------------------------------------------------- *)
 Record entry := {
   g_node : nat;            (* configuration object *)
@@ -121,14 +145,14 @@ Section Gen.
   (* every value set by the Sealer when `root` is sealed with a job context whose
      directory is jobdir, in the order they are set                               *)
   Definition generated (root : nat) (jobdir : ppath) : option (list entry) :=
-    match walk h true cut_sealed root with
+    match walk h (node_edges true) cut_sealed root with
     | None => None
     | Some evs => Some (flat_map (entries_of jobdir) evs)
     end.
 
   (* same with explicit fuel *)
   Definition generated_fuel (fuel : nat) (root : nat) (jobdir : ppath) : option (list entry) :=
-    match visit h true cut_sealed fuel [] root st0 with
+    match visit h (node_edges true) cut_sealed fuel [] root st0 with
     | None => None
     | Some st => Some (flat_map (entries_of jobdir) (events st))
     end.
@@ -150,15 +174,26 @@ Section Gen.
   Definition expandedb (n : nat) : bool :=
     match nth_error h n with Some _ => negb (cut_sealed n) | None => false end.
   Definition unamb_nodeb (n : nat) : bool :=
-    let es := filter (fun e => expandedb (snd e)) (out_edges h true n) in
+    let es := filter (fun e => expandedb (snd e)) (out_edges h (node_edges true) n) in
     forallb (fun e1 => negb (is_nil (fst e1)) &&
                        forallb (fun e2 => implb (is_prefix (fst e1) (fst e2)) (edge_eqb e1 e2)) es) es.
   Definition unambb : bool := forallb unamb_nodeb (seq 0 (length h)).
 
+  (* __xpm__.task is only set by the submit that sealed the task: the only edge without a key
+     leads to a configuration the Sealer does not enter                                    *)
+  Definition task_targets_cut : Prop :=
+    forall n nd t, nth_error h n = Some nd -> task nd = Some t -> t <> n -> ~ expanded h cut_sealed t.
+  Definition task_targets_cutb : bool :=
+    forallb (fun n => match nth_error h n with
+                      | Some nd => match task nd with
+                                   | Some t => Nat.eqb t n || negb (expandedb t)
+                                   | None => true end
+                      | None => true end) (seq 0 (length h)).
+
   (* every key pushed below an expanded node gives a plain segment *)
   Definition keys_plainb : bool :=
     forallb (fun n => if expandedb n
-                      then forallb (fun e : edge => forallb (fun k => plain (esc k)) (fst e)) (out_edges h true n)
+                      then forallb (fun e : edge => forallb (fun k => plain (esc k)) (fst e)) (out_edges h (node_edges true) n)
                       else true) (seq 0 (length h)).
   Definition files_plainb : bool :=
     forallb (fun c => forallb (fun af : str * str => plain (snd af)) c) gens.
